@@ -256,3 +256,52 @@ Print Assumptions C20_get_category_exact_and_sorted.
 Theorem C20_get_category_none : forall s c, get_category s c = None <-> assoc c (cats s) = None.
 Proof. exact get_category_none. Qed.
 Print Assumptions C20_get_category_none.
+
+(* ---- the order invariant: in every state reached by any operation sequence the registration counters stored in a
+   category are pairwise distinct and below the introspector's counter *)
+Theorem C20_reachable_orders : forall ops c,
+  NoDup (map (fun e => snd (snd e)) (cat_of (run_state init ops) c)) /\
+  Forall (fun e => (snd (snd e) < counter (run_state init ops))%N) (cat_of (run_state init ops) c).
+Proof. exact reachable_orders_cat. Qed.
+Print Assumptions C20_reachable_orders.
+
+(* hence get_category answers in STRICTLY ascending registration order in every reachable state *)
+Theorem C20_get_category_strictly_ascending : forall ops c l,
+  get_category (run_state init ops) c = Some l ->
+  Sorted (fun x y => (snd x < snd y)%N) l /\ Forall (fun e => (snd e < counter (run_state init ops))%N) l.
+Proof. exact get_category_strictly_ascending. Qed.
+Print Assumptions C20_get_category_strictly_ascending.
+
+(* ---- relations under unrelate: in a state whose relation lists hold registered, pairwise distinguishable objects
+   without duplicates, unrelate of a pair withdraws exactly the links between the two objects, in both directions;
+   symmetry is kept; relate keeps the two state hypotheses (so they hold along every relate / unrelate sequence) *)
+Theorem C20_unrelate_withdraws_exactly : forall (pool : list intr) s c1 d1 c2 d2 s',
+  (forall x y, In x pool -> In y pool -> cont_eq x y = true -> x = y) ->
+  (forall c d t, lookup s c d = Some t -> In t pool) ->
+  refs_in (fun t => In t pool) (refs s) -> lists_nodup (refs s) ->
+  unrelate s [(c1, d1); (c2, d2)] = Ok s' ->
+  exists x y, lookup s c1 d1 = Some x /\ lookup s c2 d2 = Some y /\
+    refs_in (fun t => In t pool) (refs s') /\ lists_nodup (refs s') /\
+    forall a b, In a pool -> In b pool ->
+      (linked s' a b = true <-> linked s a b = true /\ ~ ((a = x \/ a = y) /\ (b = x \/ b = y))).
+Proof. exact unrelate_withdraws_exactly. Qed.
+Print Assumptions C20_unrelate_withdraws_exactly.
+
+Theorem C20_unrelate_keeps_relations_symmetric : forall (pool : list intr) s c1 d1 c2 d2 s',
+  (forall x y, In x pool -> In y pool -> cont_eq x y = true -> x = y) ->
+  (forall c d t, lookup s c d = Some t -> In t pool) ->
+  refs_in (fun t => In t pool) (refs s) -> lists_nodup (refs s) ->
+  unrelate s [(c1, d1); (c2, d2)] = Ok s' ->
+  (forall a b, In a pool -> In b pool -> linked s a b = linked s b a) ->
+  forall a b, In a pool -> In b pool -> linked s' a b = linked s' b a.
+Proof. exact unrelate_keeps_relations_symmetric. Qed.
+Print Assumptions C20_unrelate_keeps_relations_symmetric.
+
+Theorem C20_relate_keeps_relation_lists : forall (pool : list intr) s c1 d1 c2 d2 s',
+  (forall x y, In x pool -> In y pool -> cont_eq x y = true -> x = y) ->
+  (forall c d t, lookup s c d = Some t -> In t pool) ->
+  refs_in (fun t => In t pool) (refs s) -> lists_nodup (refs s) ->
+  relate s [(c1, d1); (c2, d2)] = Ok s' ->
+  refs_in (fun t => In t pool) (refs s') /\ lists_nodup (refs s').
+Proof. exact relate_keeps_relation_lists. Qed.
+Print Assumptions C20_relate_keeps_relation_lists.
